@@ -213,6 +213,8 @@ def find_witness(d, rng, tries=40, pred=None):
         if v != v:
             continue
         if pred(v):
+            if isinstance(v, float) and v in (float("inf"), float("-inf")):
+                v = 1e308 if v > 0 else -1e308       # one side is log(0): infinitely far apart (kept JSON-serialisable)
             return env, v
     return None
 
